@@ -272,6 +272,7 @@ def kf3_witness(known, counters, violations):
 
 def run_shard(spec):
     rng = random.Random("C18:%s:%s" % (spec["seed"], spec["shard"]))
+    mgrmon.install_reach_counters()
     mgrmon.install_run_events()
     mgrmon.install_toposort(None, contract_every=0)
     counters, digests, samples, violations, known = {}, set(), [], [], []
@@ -285,6 +286,7 @@ def run_shard(spec):
         run_graph(rng, counters, digests, samples, violations, known)
         if len(violations) >= 5:
             break
+    counters["anchors_reached"] = dict(mgrmon.REACH)
     return {"evaluations": counters.get("crash_points_injected", 0), "digests": sorted(digests), "samples": samples,
             "counters": counters, "violations": violations, "known": known}
 
